@@ -113,7 +113,7 @@ class BaseRenderer(eqx.Module):
             * 2.0
             * jnp.pi
             * -1
-            * (self.psf_shape[0] / 2.0 - 0.5)
+            * (self.psf_shape[1] / 2.0 - 0.5)
             * self.FX
         )
         fft_shift_arr_y = jnp.exp(
@@ -121,7 +121,7 @@ class BaseRenderer(eqx.Module):
             * 2.0
             * jnp.pi
             * -1
-            * (self.psf_shape[1] / 2.0 - 0.5)
+            * (self.psf_shape[0] / 2.0 - 0.5)
             * self.FY
         )
         self.PSF_fft = (
